@@ -8,7 +8,7 @@
 (* its own against HashCodec.tla / Distance.tla / Serde.tla.               *)
 (* STRICT is the strictness of the build that produced the trace.          *)
 (***************************************************************************)
-EXTENDS Distance, Serde, Json, IOUtils, TLCExt
+EXTENDS Distance, Serde, Alloc, Json, IOUtils, TLCExt
 
 Rec == ndJsonDeserialize(IOEnv.TRACE)
 STRICT == IOEnv.STRICT = "1"
@@ -19,7 +19,7 @@ vars == <<l>>
 Ev == Rec[l]
 IsEvent(k) == l <= Len(Rec) /\ Ev.e = k /\ l' = l + 1
 NoPanic == Ev.p = ""
-Clean == Ev.p = "" /\ Ev.a = 0
+Clean == Ev.p = "" /\ AllocOk(Ev.e, Ev.a)
 
 V == VariantByName(Ev.v)
 Txt(s) == s                     \* texts are already sequences of byte values
